@@ -185,7 +185,7 @@ func c14Globals(a *An) {
 	gi := map[*ssa.Global]*info{}
 	var gs []*ssa.Global
 	for _, m := range p.Main.Members {
-		if g, ok := m.(*ssa.Global); ok && !strings.HasPrefix(g.Name(), "init$") {
+		if g, ok := m.(*ssa.Global); ok && !strings.HasPrefix(g.Name(), "init$") && strings.HasPrefix(g.Name(), "zzCtl") == p.ctlMode {
 			gi[g] = &info{}
 			gs = append(gs, g)
 		}
